@@ -35,7 +35,7 @@ def jobs(tier, seed):
     js = [{"sub": "bfs", "chunk": i, "of": n} for i in range(n)]
     js.append({"sub": "bfs", "chunk": 1, "of": n, "hashseed": 1 + seed % 1000, "primary": False})
     # a 29-operation core alphabet explored much deeper, one exact (fully de-duplicated) search per seed circuit
-    js += [{"sub": "bfs-core", "seed_idx": i, "depth": 7 if tier == "quick" else 9} for i in range(len(seed_circuits()))]
+    js += [{"sub": "bfs-core", "seed_idx": i, "depth": 6 if tier == "quick" else 9} for i in range(len(seed_circuits()))]
     return js
 
 
